@@ -54,6 +54,7 @@ def run(chk: Check) -> None:
     run_reload_meta(chk, get_index())
     run_worker_options_order(chk, get_index())
     run_worker_state_returned(chk, get_index())
+    run_worker_state_complete(chk, get_index())
     ix = get_index()
 
     # ---------------- R07.1
@@ -374,7 +375,7 @@ def run_phase_handover(chk: Check, ix) -> None:
 
 def run_dedupe_state(chk: Check, ix) -> None:
     """R07.8: de-duplication state that decides whether a diagnostic is printed is not process-local in effect."""
-    r8 = chk.rule("R07.8", "a set that Errors.add_error_info uses to print a message only once per build (tested with `in`, then added to) is per Errors object, hence per worker process; the coordinator must reconcile it when it merges worker output, otherwise a parallel build prints the message once per worker that meets it", floor=1)
+    r8 = chk.rule("R07.8", "state of the Errors object that decides across files whether a diagnostic is shown — a set that add_error_info uses to print a message only once per build (tested with `in`, then added to), and the state read by the test that hides errors after the many-errors threshold — is per Errors object, hence per worker process; the coordinator must reconcile it when it merges worker output, otherwise a parallel build prints the message once per worker that meets it / hides nothing", floor=2)
     aei = ix.func("mypy.errors.Errors.add_error_info")
     tested, added = {}, set()
     for n in ast.walk(aei.node):
@@ -394,6 +395,16 @@ def run_dedupe_state(chk: Check, ix) -> None:
             r8.ok(key, aei.loc(tested[a]))
         else:
             r8.violation(key, aei.loc(tested[a]), f"`{a}` is consulted and updated per process only; neither the coordinator nor the worker protocol mentions it, so every worker prints its own copy of a once-per-build message (sequential: once)")
+    # the hide-after-many-errors decision (Options.many_errors_threshold, --soft-error-limit)
+    hides = [i for i in ast.walk(aei.node) if isinstance(i, ast.If) and any(isinstance(a, ast.Assign) and norm(a.targets[0]).endswith(".hidden") for a in i.body)]
+    for i in hides:
+        state = sorted({x.attr for x in ast.walk(i.test) if isinstance(x, ast.Attribute) and norm(x.value) == "self" and x.attr not in ("options",)})
+        key = "Errors.add_error_info: the decision to hide further errors (`info.hidden = True`) is reconciled between workers and coordinator"
+        mentioned = any(isinstance(x, ast.Attribute) and x.attr in state for m in (build, worker) for x in ast.walk(m.tree))
+        if mentioned:
+            r8.ok(key, aei.loc(i))
+        else:
+            r8.violation(key, aei.loc(i), f"`{norm(i.test)[:120]}` reads per-process state only ({state}): in a parallel build each worker counts its own errors and has seen only the import errors replayed to it, so the build hides nothing where the sequential build stops at the threshold")
 
 
 def run_reload_meta(chk: Check, ix) -> None:
@@ -494,3 +505,63 @@ def run_worker_state_returned(chk: Check, ix) -> None:
             r11.violation(key, bi.loc(read_after[attr]), f"`manager.{attr}` is filled by {mutated[attr]} wherever the module is processed; nothing in the worker or in the IPC message classes mentions it, so what a worker adds never reaches the coordinator that reads it here")
     if n < 1:
         raise AnalysisError(f"no BuildManager attribute is both mutated during processing and read after dispatch (read: {sorted(read_after)[:8]})")
+
+
+def run_worker_state_complete(chk: Check, ix) -> None:
+    """R07.12: what a worker writes into a cache meta comes from a State that really holds it."""
+    r12 = chk.rule("R07.12", "State.write_cache builds the CacheMeta from attributes of the State. In a worker the State object was rebuilt by State.read from what State.write sent, so each attribute write_cache reads is (a) serialised by State.write/read, or (b) assigned in worker.load_states, or (c) (re)computed by a State method the worker runs (called by name in worker.py or the SCC processing functions, closed under self-calls). An attribute that is none of these keeps the constructor default in the worker, and the parallel build writes a meta that differs from the sequential one (e.g. imports_ignored = {}: a `# type: ignore` on an import is not honoured by the next warm run)", floor=8)
+    st = ix.cls("mypy.build.State")
+    wc = st.methods.get("write_cache")
+    if wc is None or "write" not in st.methods or "read" not in st.methods:
+        raise AnalysisError("State.write_cache / write / read not found")
+    reads = {}
+    for n in ast.walk(wc.node):
+        if isinstance(n, ast.Attribute) and isinstance(n.value, ast.Name) and n.value.id == "self" and isinstance(n.ctx, ast.Load):
+            reads.setdefault(n.attr, n.lineno)
+    init_params = {a.arg for a in st.methods["__init__"].node.args.args + st.methods["__init__"].node.args.kwonlyargs}
+    data = {a for a in reads if a not in st.methods and a != "manager"}
+    serialised = {n.attr for n in ast.walk(st.methods["write"].node) if isinstance(n, ast.Attribute) and isinstance(n.value, ast.Name) and n.value.id == "self"}
+    ls = ix.func("mypy.build_worker.worker.load_states")
+    in_worker = {t.attr for a in ast.walk(ls.node) if isinstance(a, (ast.Assign, ast.AnnAssign)) for t in (a.targets if isinstance(a, ast.Assign) else [a.target]) if isinstance(t, ast.Attribute) and isinstance(t.value, ast.Name) and t.value.id == "state"}
+    computed = set()
+    # State methods the worker runs: called by name on some object in worker.py or in the SCC
+    # processing functions, closed under `self.m()` calls inside State (calls that go through the
+    # manager, like parse_all(post_parse=False) -> post_parse_all, are flag-dependent and not followed)
+    entry_funcs = [f for f in ix.module("mypy.build_worker.worker").functions.values()]
+    for q in ("mypy.build.process_stale_scc", "mypy.build.process_stale_scc_interface", "mypy.build.process_stale_scc_implementation"):
+        try:
+            entry_funcs.append(ix.func(q))
+        except Exception:
+            pass
+    run = set()
+    for f in entry_funcs:
+        for c in ast.walk(f.node):
+            if isinstance(c, ast.Call) and isinstance(c.func, ast.Attribute) and c.func.attr in st.methods:
+                run.add(c.func.attr)
+    todo = list(run)
+    while todo:
+        mname = todo.pop()
+        for c in ast.walk(st.methods[mname].node):
+            if isinstance(c, ast.Call) and isinstance(c.func, ast.Attribute) and isinstance(c.func.value, ast.Name) and c.func.value.id == "self" and c.func.attr in st.methods and c.func.attr not in run:
+                run.add(c.func.attr)
+                todo.append(c.func.attr)
+    if len(run) < 5:
+        raise AnalysisError(f"only {sorted(run)} State methods found to be run by the worker")
+    for mname, m in st.methods.items():
+        if mname in ("__init__", "read", "new_state") or mname not in run:
+            continue
+        for a in ast.walk(m.node):
+            if isinstance(a, (ast.Assign, ast.AnnAssign, ast.AugAssign)):
+                for t in (a.targets if isinstance(a, ast.Assign) else [a.target]):
+                    for x in ast.walk(t):
+                        if isinstance(x, ast.Attribute) and isinstance(x.value, ast.Name) and x.value.id == "self" and isinstance(x.ctx, ast.Store):
+                            computed.add(x.attr)
+    if len(data) < 8:
+        raise AnalysisError(f"State.write_cache reads only {sorted(data)}")
+    for a in sorted(data):
+        key = f"State.{a} (read by write_cache) reaches the worker"
+        how = "serialised by State.write" if a in serialised else "assigned in worker.load_states" if a in in_worker else "computed by a State method" if a in computed else None
+        if how:
+            r12.ok(key, wc.loc(), how)
+        else:
+            r12.violation(key, f"{wc.module.relpath}:{reads[a]}", f"`self.{a}` goes into the cache meta, but State.write does not send it, worker.load_states does not assign it and no State method recomputes it: in a `-n N` build the worker-side State keeps the value State.read constructs, so the meta a parallel build writes differs from the one a sequential build writes")
